@@ -13,12 +13,15 @@ import (
 func init() { fw.Register("C10", "exploration", Run) }
 
 const kfTargetPort = "C10-ingress-backend-number-matches-targetport"
+const kfReservedNS = "C10-egress-policies-of-namespace-ingress-controller-ns-apply-to-the-ingress-controller"
 
 var cportAlpha = [][]wm.CPort{
 	{{Name: "http", Num: 80}, {Num: 8080, Proto: "TCP"}},
 	{{Name: "http", Num: 8080}, {Name: "dns", Num: 53, Proto: "UDP"}},
 	{{Num: 9090}, {Num: 80, Proto: "UDP"}},
 	{{Name: "http", Num: 80, Proto: "UDP"}, {Name: "web", Num: 8080}, {Num: 53, Proto: "UDP"}},
+	// one number under two protocols: the name "dns" is UDP, another TCP port has the same number
+	{{Name: "dns", Num: 53, Proto: "UDP"}, {Name: "dns-tcp", Num: 53}, {Name: "http", Num: 8080}},
 }
 
 var targets = []wm.Target{{}, wm.TNum(8080), wm.TNum(9090), wm.TName("http"), wm.TName("dns"), wm.TName("nosuch"), wm.TNum(80), wm.TNum(53)}
@@ -59,6 +62,13 @@ var policies = []polv{
 	{anps: []wm.ANP{{Name: "a", Prio: 5, Subject: wm.APeer{Namespaces: wm.ML("team", "a")}, Ingress: []wm.ARule{{Action: "Deny", Peers: []wm.APeer{{Namespaces: all}}, Ports: &[]wm.APort{{Kind: "num", Proto: "TCP", Num: 80}}}}}}},
 	{banp: &wm.ANP{Name: "default", Subject: wm.APeer{Namespaces: all}, Ingress: []wm.ARule{{Action: "Deny", Peers: []wm.APeer{{Namespaces: wm.ML("team", "a")}}}}}},
 	// selectors made only of negative expressions: an unlabeled pod satisfies them
+	// the {ingress-controller} is the only possible source of any connection: everything else is denied in both directions
+	{nps: []wm.NP{{NS: "ns1", Name: "deny-all", PodSel: wm.Sel{}, Types: []string{"Ingress", "Egress"}}, {NS: "ns2", Name: "deny-all", PodSel: wm.Sel{}, Types: []string{"Ingress", "Egress"}},
+		{NS: "ns1", Name: "from-any-namespace", PodSel: wm.Sel{}, Types: []string{"Ingress"}, Ingress: []wm.NPRule{{Peers: []wm.NPPeer{{NSSel: all}}, Ports: []wm.NPPort{{HasPort: true, Num: 8080}, {HasPort: true, Num: 53}}}}}}},
+	// policies in the namespace whose name the tool reserves for its {ingress-controller} pod (no Namespace object, no workload there)
+	{nps: []wm.NP{{NS: "ingress-controller-ns", Name: "ic-egress-anywhere", PodSel: wm.Sel{}, Types: []string{"Egress"}, Egress: []wm.NPRule{{}}},
+		{NS: "ingress-controller-ns", Name: "ic-ingress-deny", PodSel: wm.Sel{}, Types: []string{"Ingress"}}}},
+	{nps: []wm.NP{{NS: "ingress-controller-ns", Name: "ic-egress-deny", PodSel: wm.Sel{}, Types: []string{"Egress"}}}},
 	{nps: []wm.NP{{NS: "ns1", Name: "negative", PodSel: wm.Sel{}, Types: []string{"Ingress"}, Ingress: []wm.NPRule{{Peers: []wm.NPPeer{{NSSel: all, Pod: wm.ME("app", "NotIn", "zz")}}, Ports: []wm.NPPort{{HasPort: true, Num: 8080}}}, {Peers: []wm.NPPeer{{NSSel: wm.ME("team", "DoesNotExist"), Pod: wm.ME("role", "DoesNotExist")}}, Ports: []wm.NPPort{{HasPort: true, Num: 80}}}}}}},
 }
 
@@ -111,6 +121,10 @@ func Eval(w *wm.World, x *fw.Rec) {
 		known := ""
 		if dm, dmT, _ := w.RefIngressConn(wi, wm.IngressDefectTargetPort, true); dm == got && warned == (dmT && dm == "No Connections") {
 			known = kfTargetPort
+		} else if dm, dmT, _ := w.RefIngressConn(wi, wm.IngressByStatement, false); dm == got && warned == (dmT && dm == "No Connections") && hasPolicyIn(w, "ingress-controller-ns") {
+			// defect model: the source is not "a pod in a namespace unknown to the input" but a pod of namespace ingress-controller-ns,
+			// so the egress side of that namespace's policies is applied to it as well
+			known = kfReservedNS
 		}
 		if got != exp {
 			x.Fail(fmt.Sprintf("ingress-controller line differs: tool %s, reference %s", shape(got), shape(exp)), known,
@@ -127,6 +141,15 @@ func Eval(w *wm.World, x *fw.Rec) {
 		x.Nontrivial(tr.OutcomeKey())
 		x.Sample(map[string]any{"world": w.Brief()[3:], "ingress_lines": lines})
 	}
+}
+
+func hasPolicyIn(w *wm.World, ns string) bool {
+	for i := range w.NPs {
+		if w.NPs[i].NS == ns {
+			return true
+		}
+	}
+	return false
 }
 
 func shape(c string) string {
